@@ -60,9 +60,10 @@ PROPS = {
         technique="stateless model checking: controlled scheduler + preemption-bounded DFS over the real lookup path; separate free-running -race pass",
         level_text="Every interleaving (up to the preemption bound reported in the evidence; statement-level scheduling points in picker.go, glob_cache.go, target.go, table.go) of 2-3 concurrent lookups over redirect routes, equal and weighted round-robin routes, a glob cache at its fill and eviction boundaries, and lookups concurrent with SetTable, is executed on the real code and checked: own redirect Location, exact round-robin shares, cache within size and never failing, decisions independent of other requests. The same bodies run free under the race detector.",
         level_note="Sequentially consistent interleavings at statement granularity of the four rewritten files; weaker memory orderings and races inside other packages are only covered by the -race pass (a monitor over a sample of schedules).",
-        units=[route_sched("c06", "^TestVerifC06", shards={"quick": 1, "thorough": 16}),
+        units=[route_sched("c06", "^TestVerifC06Sched", shards={"quick": 1, "thorough": 16}),
+               unit("c06-cursor", "route", ROUTE_COMMON + ["route/c04_test.go"], "^TestVerifC06Cursor"),
                unit("c06-admin", "admin/api", ["adminapi/c05_test.go", "adminapi/c02_read_test.go"], "^TestVerifC02AdminRead", sched_env={"VERIF_ADMIN_PROP": "C06"})],
-        layers={"quick": ["c06-sched", "c06-admin"], "thorough": ["c06-sched", "c06-admin"]}),
+        layers={"quick": ["c06-sched", "c06-admin", "c06-cursor"], "thorough": ["c06-sched", "c06-admin", "c06-cursor"]}),
     "C02": dict(level="model_checking", engine="vsched",
         technique="stateless model checking of SetTable vs lookups (controlled scheduler, preemption-bounded DFS) + explicit-state BFS of update histories through the real watchBackend + bounded-exhaustive config texts",
         level_text="(1) every interleaving up to the reported preemption bound of a writer installing tables with 1-2 readers doing paired lookups, on the real atomic table; (2) every history of valid/invalid service and manual configuration updates up to the reported depth through the real main.watchBackend loop against a reference model of last-good-table; (3) every configuration text of a bounded grammar incl. non-finite, huge and denormal weights, bad globs and URLs through NewTable/NewTableCustom + lookups: error or table, never a panic.",
